@@ -2325,15 +2325,32 @@ def tree_decode(g: Grammar, index: int, depth: int):
 
 
 def tree_indices(g: Grammar, depth: int, cap: int, seed: int, salt: int = 0) -> tuple[list[int], int]:
+    """All trees of depth <= 2 plus a seeded sample of the deeper ones, `cap` in total.  For the source-form grammar the
+    sample is drawn until `cap` trees WITHOUT number-only arithmetic are found (those are the obligations); at most cap/4
+    trees with number-only arithmetic are kept as observations."""
     total = tree_count(g, depth)
     if total <= cap:
         return list(range(total)), total
     rng = random.Random(seed * 1000003 + depth * 101 + salt)
-    small = tree_count(g, 2)  # all trees up to depth 2 are always included
+    small = tree_count(g, 2)
     picked = set(range(min(small, cap)))
-    while len(picked) < cap:
-        picked.add(rng.randrange(total))
-    return sorted(picked), total
+    if g.evaluated:
+        while len(picked) < cap:
+            picked.add(rng.randrange(total))
+        return sorted(picked), total
+    observed: set = set()
+    draws = 0
+    while len(picked) < cap and draws < 60 * cap:
+        draws += 1
+        ix = rng.randrange(total)
+        if ix in picked or ix in observed:
+            continue
+        if folds_in_python(tree_decode(g, ix, depth)):
+            if len(observed) < cap // 4:
+                observed.add(ix)
+        else:
+            picked.add(ix)
+    return sorted(picked | observed), total
 
 
 def _spec_size(spec) -> int:
@@ -2513,8 +2530,8 @@ def run_property(report, pid: str, kind: str):
     plan = [  # (grammar, symset, sample size)
         (G_CANON, "base", 20000 if quick else 100000),
         (G_CANON, alt, 5000 if quick else 20000),
-        (G_SRC, "base", 20000 if quick else 100000),
-        (G_SRC, alt, 5000 if quick else 20000),
+        (G_SRC, "base", 20000 if quick else 60000),
+        (G_SRC, alt, 5000 if quick else 15000),
     ]
     tree_tasks, plan_info = [], {}
     for k, (g, symset, cap) in enumerate(plan):
